@@ -106,7 +106,7 @@ def shard_configs(shard, rng):
     return rng.sample(cases.CONFIGS, n)
 
 
-def plan_bases(tier, quick_msgs_cfgs=2, thorough_cfgs=8, struct_per_type=(1, 4), corpus_step=(40, 4), nshards=(5, 12)):
+def plan_bases(tier, quick_msgs_cfgs=2, thorough_cfgs=8, struct_per_type=(1, 4), corpus_step=(40, 4), nshards=(8, 14)):
     types = cases.non_union_types()
     ccs = gen.ccs()
     q = tier == "quick"
